@@ -118,8 +118,8 @@ def run(tier, seed, replay):
                     first_nonconf = dict(gen=gen, run=r["id"], what=r["outcome_mismatch"])
             if r.get("stall"):
                 stalled.add(r["id"])
-                case = dict(gen=gen, prog=r["prog"], sched=r["sched"], stall=r["stall"])
-                if "WaitGroup.Wait" in r["stall"]:
+                case = dict(gen=gen, prog=r["prog"], sched=r.get("sched") or [], stall=r["stall"])
+                if "WaitGroup.Wait" in r["stall"] or "LazySyncMap" in r["stall"]:
                     if "done=true" in r["stall"] and not r.get("deadlock"):
                         verdict.add("C18/blocks-after-computation-returned/" + gen,
                                     "a waiter stays blocked although the computation it waits for has returned: " + r["stall"], case)
